@@ -49,8 +49,11 @@ def render (g : PGraph) : Array String := Id.run do
     i := i + 1
   i := 0
   for cs in g.clocks do
-    let sorted := (cs.toArray.qsort npLt).toList
-    out := out.push (" ".intercalate (["k", toString i, toString cs.length] ++ sorted.map showNP))
+    if g.calive.getD i false then
+      let sorted := (cs.toArray.qsort npLt).toList
+      out := out.push (" ".intercalate (["k", toString i, toString cs.length] ++ sorted.map showNP))
+    else
+      out := out.push s!"k {i} x"     -- destroyed clock
     i := i + 1
   return out
 
@@ -159,7 +162,14 @@ def compact (s : State) : State :=
 def parseOp (toks : List String) : Option (List Op) :=
   match toks with
   | ["newgroup"] => some [.createGroup]
-  | ["newclock"] => some [.createClock]
+  | "newclock" :: _ => some [.createClock]
+  | ["clone", h] => some [.cloneNode (pNat h)]
+  | ["killclock", c] => some [.destroyClock (pNat c)]
+  | "copysubnet" :: cc :: nIn :: rest =>
+    let ins := (rest.take (pNat nIn)).map pNP
+    match rest.drop (pNat nIn) with
+    | nOut :: rest2 => some [.copySubnet ins ((rest2.take (pNat nOut)).map pNP) (cc == "1")]
+    | [] => none
   | ["connect", h, i, d] => some [.connect (pNat h) (pNat i) (pONP d)]
   | ["disconnect", h, i] => some [.disconnect (pNat h) (pNat i)]
   | ["sconnect", h, d] => some [.signalConnect (pNat h) (pONP d)]
@@ -206,6 +216,7 @@ def invReport (s : State) : List String :=
   (if decide (GroupInv s.size s.alive s.grp s.ngroups s.gnodes) then [] else ["groups"]) ++
   (if decide (ClockInv s.size s.alive s.numClk s.clk s.nclocks s.clocked) then [] else ["clocks"]) ++
   (if decide (IdInv s.size s.alive s.nid s.nextId) then [] else ["ids"]) ++
+  (if decide (CAInv s.size s.alive s.numClk s.clk s.calive) then [] else ["deadclock"]) ++
   (if decide (OrderInv s.size s.alive s.order) then [] else ["storage"])
 
 /-- first differing line of two renderings -/
@@ -280,7 +291,9 @@ partial def loop (h : IO.FS.Stream) (d : DS) : IO DS := do
       let (n, _) := parseNode toks.toArray
       loop h { d with g := { d.g with nodes := d.g.nodes.push n }, raw := d.raw.push ln }
     | "g" :: _ :: _ :: rest => loop h { d with g := { d.g with groups := d.g.groups.push (rest.map pH) }, raw := d.raw.push ln }
-    | "k" :: _ :: _ :: rest => loop h { d with g := { d.g with clocks := d.g.clocks.push (rest.map pNP) }, raw := d.raw.push ln }
+    | ["k", _, "x"] => loop h { d with g := { d.g with clocks := d.g.clocks.push [], calive := d.g.calive.push false }, raw := d.raw.push ln }
+    | "k" :: _ :: _ :: rest =>
+      loop h { d with g := { d.g with clocks := d.g.clocks.push (rest.map pNP), calive := d.g.calive.push true }, raw := d.raw.push ln }
     | "t" :: hh :: rest => loop h { d with kinds := d.kinds.push (pNat hh, rest.headD "?", parseKind rest) }
     | _ =>
       IO.println s!"DIFF case={d.caseId} unparsed dump line [{ln}]"
